@@ -141,6 +141,38 @@ def r17_1(ctx):
         ctx.ok("R17.1", where(rf), "every selected mailbox of the subtree is renamed")
     else:
         ctx.bad("R17.1", rf.module, rf.qual, "for old, (...) in to_change.items(): _do_rename_folder", "not every mailbox of the renamed subtree is updated", rf.node.lineno)
+    # the subtree is exactly `old_name` and the names below `old_name/`: LIKE treats `_` and `%` *in the mailbox name* as
+    # wildcards, so the rows it returns are filtered by a real prefix test (or the pattern is escaped)
+    q = "srvr.db.query('SELECT name,id FROM mailboxes WHERE name=? OR name LIKE ?', (old_name, f'{old_name}/%'))"
+    tail = "mbox_new_name = new_name + mbox_old_name[len(old_name):]\n    to_change[mbox_old_name] = (mbox_new_name, mbox_id)"
+    exact = any(prf.has(x) for x in (
+        f"async for mbox_old_name, mbox_id in {q}:\n    if mbox_old_name != old_name and not mbox_old_name.startswith(old_name + '/'):\n        continue\n    {tail}",
+        f"async for mbox_old_name, mbox_id in {q}:\n    if mbox_old_name == old_name or mbox_old_name.startswith(old_name + '/'):\n        {tail.replace(chr(10) + '    ', chr(10) + '        ')}",
+    )) or "escape" in tr.lower()
+    if exact:
+        ctx.ok("R17.1", where(rf), "rows returned by LIKE are kept only if they are the mailbox itself or really lie below `old_name/`")
+    else:
+        ctx.bad("R17.1", rf.module, rf.qual, "name LIKE f'{old_name}/%' without a prefix test", "the subtree to rename is selected with LIKE alone: `_` and `%` in a mailbox name are wildcards there, so `RENAME a_b q` also renames `axb/c` (another mailbox's child) to `q/c`", rf.node.lineno)
+    # a mailbox cannot become its own inferior: refused before anything is changed (the directory rename fails with EINVAL
+    # after the names in the db were rewritten and committed)
+    rn = p.func("mbox.Mailbox.rename")
+    ctx.analysed(rn)
+    gr = ctx.cfg(rn)
+    helper = [n.id for n in gr.nodes if n.ast is not None and n.kind == "stmt" and any(call_name(c) == "_helper_rename_folder" for c in calls_in(n.ast))]
+    ctx.require(helper, "Mailbox.rename: call of _helper_rename_folder not found")
+
+    def _own_subtree_test(e):
+        for c in ast.walk(e):
+            if isinstance(c, ast.Call) and call_name(c) == "startswith" and norm(call_recv(c)) == "new_name" and c.args and isinstance(c.args[0], ast.BinOp) and isinstance(c.args[0].op, ast.Add) and norm(c.args[0].left) in ("mbox.name", "old_name") and isinstance(c.args[0].right, ast.Constant) and c.args[0].right.value == "/":
+                return True
+        return False
+
+    guards = {n.id for n in gr.nodes if n.kind == "test" and n.ast is not None and _own_subtree_test(n.ast)}
+    raises_on_true = bool(guards) and all(any(e.label == "true" and gr.nodes[e.dst].kind == "raise" or (e.label == "true" and any(gr.nodes[x].kind == "raise" for x in flow.reach(gr, [e.dst], flow.NORMAL) if x not in helper) and helper[0] not in flow.reach(gr, [e.dst], flow.NORMAL)) for e in gr.out[t]) for t in guards)
+    if guards and raises_on_true and flow.escapes_without(gr, gr.entry, lambda n: n in guards, helper) is None:
+        ctx.ok("R17.1", where(rn), "RENAME into the mailbox's own subtree is refused before anything is changed")
+    else:
+        ctx.bad("R17.1", rn.module, rn.qual, "if new_name.startswith(mbox.name + '/'): raise", "RENAME of a mailbox to one of its own inferiors (`RENAME top top/inside`) is not refused up front: the names in the db are rewritten and committed, then the directory rename fails - the refused command leaves `top/inside` listed and `top` gone", rn.node.lineno)
     # ---- subscribe
     for m, val in (("do_subscribe", True), ("do_unsubscribe", False)):
         fi = p.func(f"client.Authenticated.{m}")
